@@ -262,6 +262,12 @@ def dfltUnderNotP : List (String × S) → Bool
   | (_, s) :: ps => s.dfltUnderNot || dfltUnderNotP ps
 end
 
+/-- does the `DefaultsSet` callback run? `settings.onceSettingDefaults.Do(settings.defaultsSet)` is executed when a default
+is written while `settings.trial == 0`, i.e. outside every oneOf/anyOf candidate that runs on a private copy (6a3f133):
+exactly when a default is written into the value ITSELF — and a written default is a new member, so exactly when the
+value handed back differs from the value handed in -/
+def callbackFires (m : Mode) (env : Env) (s : S) (v : J) : Bool := !jeq (visitD m env s v).2 v
+
 /-- the model of `VisitJSON(value, opts…)` with the value as the caller finds it afterwards -/
 def validateD (m : Mode) (env : Env) (s : S) (v : J) : Res × J :=
   (report m (visitD m env s v).1, (visitD m env s v).2)
